@@ -43,13 +43,31 @@ def class_writes(src: SourceModel, qual: str):
     plus the nested defs they may refer to.  -> list of (clsname, attr, value node, stmt)"""
     f = src.func(qual)
     out = []
-    for node in ast.walk(f.node):
+
+    def core_class(name, loopvars):
+        if name in loopvars:
+            return loopvars[name]
+        r = src.resolve(f.module, name)
+        return [r[1]] if r and r[0] == "class" and r[1].startswith("core.") else []
+
+    def visit(node, loopvars):
+        if isinstance(node, ast.For) and isinstance(node.target, ast.Name) and isinstance(node.iter, (ast.Tuple, ast.List)) \
+                and node.iter.elts and all(isinstance(e, ast.Name) and core_class(e.id, {}) for e in node.iter.elts):
+            # for cls in (Element, Isotope): cls.attr = ...
+            loopvars = dict(loopvars, **{node.target.id: [core_class(e.id, {})[0] for e in node.iter.elts]})
         if isinstance(node, ast.Assign):
             for t in node.targets:
                 if isinstance(t, ast.Attribute) and isinstance(t.value, ast.Name):
-                    r = src.resolve(f.module, t.value.id)
-                    if r and r[0] == "class" and r[1].startswith("core."):
-                        out.append((r[1], t.attr, node.value, node))
+                    for cq in core_class(t.value.id, loopvars):
+                        out.append((cq, t.attr, node.value, node))
+        if isinstance(node, ast.Expr) and isinstance(node.value, ast.Call) and isinstance(node.value.func, ast.Name) \
+                and node.value.func.id == "setattr" and len(node.value.args) == 3 and isinstance(node.value.args[0], ast.Name) \
+                and isinstance(node.value.args[1], ast.Constant) and isinstance(node.value.args[1].value, str):
+            for cq in core_class(node.value.args[0].id, loopvars):
+                out.append((cq, node.value.args[1].value, node.value.args[2], node))
+        for child in ast.iter_child_nodes(node):
+            visit(child, loopvars)
+    visit(f.node, {})
     return out
 
 
